@@ -526,8 +526,7 @@ func (c *Check) refToSession(rv *refViolation) (*workerlib.Violation, []workerli
 		if passVal == fresh {
 			continue
 		}
-		for _, w := range []int{1, 2, 4, 16, 64, 256, 2048, 1 << 30} {
-			calls := build(forward, w)
+		try := func(calls []workerlib.ECall) (*workerlib.Violation, []workerlib.ExplicitRun) {
 			run := workerlib.ExplicitRun{Tasks: [][]workerlib.ECall{calls}, Policy: simrtPolicyExplicit(), Est: 1 << 30}
 			session := []workerlib.ExplicitRun{run}
 			// only the last call carries an expectation (its fresh-process value);
@@ -561,10 +560,71 @@ func (c *Check) refToSession(rv *refViolation) (*workerlib.Violation, []workerli
 					}
 				}
 			}
-			session[0].Policy = simrtPolicyExplicit()
+			return nil, nil
+		}
+		for _, w := range []int{1, 2, 4, 16, 64, -1, 256, 2048, 1 << 30} {
+			var calls []workerlib.ECall
+			if w < 0 {
+				// a wide window is needed: shrink the whole preceding pass natively
+				// first (the shipped code, at full speed), then simulate what is left
+				if calls = c.nativeShrink(build(forward, 1<<30), passVal); calls == nil {
+					continue
+				}
+			} else {
+				calls = build(forward, w)
+			}
+			if v, ses := try(calls); v != nil {
+				return v, ses
+			}
 		}
 	}
 	return nil, nil
+}
+
+// nativeShrink reduces a call list whose LAST call yields want in one fresh
+// reference process (want differs from the fresh single-call value) by delta
+// debugging on the preceding calls, evaluated by the uninstrumented library.
+// nil if the full list does not yield want natively (e.g. a result that only
+// shows under one pass direction's process history).
+func (c *Check) nativeShrink(calls []workerlib.ECall, want string) []workerlib.ECall {
+	n := len(calls)
+	if n < 2 {
+		return nil
+	}
+	holds := func(pre []workerlib.ECall) bool {
+		l := append(append([]workerlib.ECall(nil), pre...), calls[n-1])
+		res, err := refList(c.E, l)
+		return err == nil && len(res) == len(l) && res[len(l)-1] == want
+	}
+	pre := calls[:n-1]
+	if !holds(pre) {
+		c.Log("native shrink: the %d-call pass prefix does not reproduce %q natively", n, want)
+		return nil
+	}
+	deadline := time.Now().Add(40 * time.Second)
+	for chunk := (len(pre) + 1) / 2; chunk >= 1 && time.Now().Before(deadline); {
+		removed := false
+		for at := 0; at < len(pre) && time.Now().Before(deadline); {
+			end := at + chunk
+			if end > len(pre) {
+				end = len(pre)
+			}
+			cand := append(append([]workerlib.ECall(nil), pre[:at]...), pre[end:]...)
+			if holds(cand) {
+				pre, removed = cand, true
+			} else {
+				at = end
+			}
+		}
+		if chunk == 1 && !removed {
+			break
+		}
+		if chunk > 1 {
+			chunk = (chunk + 1) / 2
+		}
+	}
+	c.Log("native shrink: %d -> %d calls", n, len(pre)+1)
+	return append(append([]workerlib.ECall(nil), pre...), calls[n-1])
 }
 
 // isolateCrashers finds the inputs on which a fresh reference process dies.
@@ -914,9 +974,14 @@ func (c *Check) sweepLongPairs() {
 		if from >= to {
 			return
 		}
-		stride := 3
+		// quick: about 2000 of the ordered pairs (an odd stride: both APIs and all
+		// first members still occur); thorough: every third pair per round
+		stride := total/2000 | 1
+		if stride < 3 {
+			stride = 3
+		}
 		if c.Tier == "thorough" {
-			stride = 1
+			stride = 3
 		}
 		ses := &workerlib.Session{Mode: "longpairs", Corpus: c.CorpusP, Seed: c.Seed, Worker: i, From: from, To: to, Runs: stride, SyncHeavy: c.SyncSeen, NSites: len(c.E.Report.Sites), DistinctPath: c.distinctPath()}
 		pr := runWorker(c.E, ses, 1, 15*time.Minute)
@@ -1137,6 +1202,68 @@ func (c *Check) sweepHugeFirst() {
 			harnessFail("huge-first sweep: %v", err)
 		}
 		c.Agg.add("huge_first_sweep", pr)
+	})
+}
+
+// sweepWrap: exact-distance histories (see modeWrap). 8-bit periods: every
+// pair; 16-bit periods (131 k calls per pair): a seeded handful per API.
+func (c *Check) sweepWrap() {
+	type job struct{ period, api, from, to int }
+	var jobs []job
+	for api := 0; api < 2; api++ {
+		a, _ := workerlib.WrapPairs(c.Corpus, uint8(api))
+		np := len(a)
+		if np == 0 {
+			continue
+		}
+		for p, n := range workerlib.WrapPeriods {
+			if n < 1000 {
+				for from := 0; from < np; from += 60 {
+					jobs = append(jobs, job{p, api, from, from + 60})
+				}
+				continue
+			}
+			q := 4
+			if c.Tier == "thorough" {
+				q = 24
+			}
+			r := simrt.NewRNG(c.Seed ^ uint64(0x3a9+p*2+api))
+			for k := 0; k < q; k++ {
+				i := r.Intn(np)
+				jobs = append(jobs, job{p, api, i, i + 1})
+			}
+		}
+	}
+	parallel(len(jobs), c.NCPU, func(i int) {
+		j := jobs[i]
+		ses := &workerlib.Session{Mode: "wrap", Corpus: c.CorpusP, Seed: c.Seed, Worker: i, From: j.from, To: j.to, Runs: j.period<<1 | j.api, NSites: len(c.E.Report.Sites), DistinctPath: c.distinctPath()}
+		pr := runWorker(c.E, ses, 1, 15*time.Minute)
+		if err := procOK(pr); err != nil {
+			harnessFail("wrap sweep: %v", err)
+		}
+		c.Agg.add("wrap_sweep", pr)
+	})
+}
+
+// sweepOverlap: self-overlap sweep (see modeOverlap); only for trees that reach synchronisation stubs.
+func (c *Check) sweepOverlap() {
+	total := 2 * len(workerlib.OverlapList(c.Corpus))
+	procs := c.NCPU * 2
+	per := (total + procs - 1) / procs
+	parallel(procs, c.NCPU, func(i int) {
+		from, to := i*per, (i+1)*per
+		if to > total {
+			to = total
+		}
+		if from >= to {
+			return
+		}
+		ses := &workerlib.Session{Mode: "overlap", Corpus: c.CorpusP, Seed: c.Seed, Worker: i, From: from, To: to, SyncHeavy: true, NSites: len(c.E.Report.Sites), DistinctPath: c.distinctPath()}
+		pr := runWorker(c.E, ses, 1, 15*time.Minute)
+		if err := procOK(pr); err != nil {
+			harnessFail("overlap sweep: %v", err)
+		}
+		c.Agg.add("overlap_sweep", pr)
 	})
 }
 
